@@ -1,12 +1,15 @@
 From Coq Require Import List ZArith NArith Bool.
 Import ListNotations.
-From JR Require Import Keepalive AuthCases.
+From JR Require Import Keepalive AuthCases Options.
 Open Scope Z_scope.
 
 (* timed trace of one client connection: ticks between hook timestamps, resets at deadline.reset;
    expect_fired: the trace ends at the reader error caused by the deadline (silent peer) / at the end of a healthy run *)
-Record kcase := { kc_T : Z; kc_events : list kev; kc_expect_fired : bool; kc_aevents : list aev;
+Record kcase := { kc_opts : list kopt (* the keepalive options the client was built with, in the order listed *); kc_events : list kev; kc_expect_fired : bool; kc_aevents : list aev;
                   kc_armed : list Z (* the timeout each deadline.reset of the connection armed *) }.
+
+(* the timeout the connection must use: what the Options model says these options configure *)
+Definition kc_T (c : kcase) : Z := timeout (configure false (kc_opts c)).
 
 (* 0 ok; 1 the deadline model disagrees with what was observed; 2 a deadline reset without peer evidence (index);
    3 the deadline was armed with something else than the configured timeout (the model's T) *)
